@@ -118,6 +118,11 @@ static void ev_add(const char *fmt, ...)
     jb_printf(&e_ev, "%s%s", e_evn++ ? "," : "", tmp);
 }
 
+/* drop events appended since ev_mark() (set-up / tear-down of helper objects) */
+static size_t ev_mark_n; static int ev_mark_c;
+static void ev_mark(void) { ev_mark_n = e_ev.n; ev_mark_c = e_evn; }
+static void ev_rewind(void) { e_ev.n = ev_mark_n; if (e_ev.p) e_ev.p[e_ev.n] = 0; e_evn = ev_mark_c; }
+
 /* ---------------------------------------------------------------- driver interface */
 static void drv_setup(int argc, char **argv);
 static void drv_reset(void);
